@@ -65,6 +65,19 @@ add("C13", "x_minify", MC, "bounded exhaustive byte strings (safety, guard pages
     "(uniform, single gap, all combinations for short lists, thorough: pairs of gaps): result == concatenated tokens, idempotent, parses to an equal tree.",
     "Trusted: the harness' independent token scanner; guard pages; ASan.", "DESIGN.md §3 C13")
 
+UT_NOTE = ("Trusted: the harness' RFC 6901/6902/7396 reference evaluators on a plain value model (validated against the RFC examples and the repository's json-patch-tests by tools/selftest), ASan/UBSan, allocation ledger. "
+           "Bounded by the document node bound, key/leaf alphabets and pointer/patch alphabets stated in the evidence.")
+add("C15", "x_utils", MC, "bounded exhaustive documents x pointer strings against an RFC 6901 reference resolver; all (root,node) pairs for construction",
+    "3356 documents (all trees <= 3 nodes over leaves {1,\"s\"} and 13 awkward keys incl. '', '/', '~', '~0', '~1', '01', '-') plus a 30-element array, a 2-element array and a nested array of objects x every pointer string over {/,~,0,1,2,a,A,-} up to length 4 (thorough 5) "
+    "and 1320 special strings (leading zeros, trailing garbage, overflowing indices, bad escapes): returned node pointer must equal the reference. FindPointerFromObjectTo for every node: exact text, resolves back, foreign node -> NULL.", UT_NOTE, "DESIGN.md §3 C15")
+add("C16", "x_utils", MC, "bounded exhaustive documents x patch documents against an RFC 6902 reference evaluator",
+    "All 1918 documents <= 3 nodes x every single-operation patch over one-token paths; 332 documents x every single operation over two-token paths/froms; all two-operation patches over existing/insertable paths; every JSON object with <= 3 (4) members over {op,path,from,value,x} x 18 values as patch (array-wrapped and bare). "
+    "Status 0 iff reference succeeds and then equal documents (objects as sets); always: no crash, structural walk, patch unchanged in value, balanced ledger. One recorded known finding (copy/move to the whole document).", UT_NOTE, "DESIGN.md §3 C16")
+add("C17", "x_utils", MC, "all ordered pairs of enumerated documents through patch generation, result validated by the library and by an independent evaluator",
+    "All ordered pairs of the 1918 documents <= 3 nodes over leaves {null,1,1e-20,3e-20,\"s\"} and keys {a,A,b,a/b,m~n,''} (thorough: + documents <= 4 nodes): generated patch is an array, empty iff equal, transforms source into target under both evaluators; inputs equal in value, walk ok, still appendable/printable/deletable.", UT_NOTE, "DESIGN.md §3 C17")
+add("C18", "x_utils", MC, "all ordered pairs of enumerated documents through merge-patch application and generation against an RFC 7396 reference",
+    "All ordered (target, patch) and (from, to) pairs over the 1918 documents plus 500+ nested objects whose keys differ only by case / are non-ASCII and carry null members: MergePatchCaseSensitive == reference merge; generated merge patch applied by library and reference yields 'to' (to without null members); inputs unchanged in value and healthy.", UT_NOTE, "DESIGN.md §3 C18")
+
 NA = [dict(property_id=p, reason="check not built yet in this revision (planned: see DESIGN.md §3); nothing is claimed for it") for p in
       ["C04","C05","C06","C07","C08","C09","C11","C12","C13","C14","C15","C16","C17","C18","C19","C20"] if p not in C]
 ENGINES = [
